@@ -196,6 +196,7 @@ def verify_function(info: ContractInfo) -> FunctionResult:
     ctx = Ctx(f"{info.relpath}:{info.qualname}", REGISTRY)
     ctx.rng_used = False
     ex = Exec(ctx, info.relpath, contract=info)
+    ex.max_unfold = int(info.opts.get("unfold", 2))
     cls = info.qualname.split(".")[0] if "." in info.qualname else None
     ex.fn_stack = [(fnode, info, cls)]
     from .core import Facts
@@ -218,6 +219,9 @@ def verify_function(info: ContractInfo) -> FunctionResult:
             if n not in info.params:
                 raise OutOfReach(f"contract gives no sort for parameter {n}")
             st.env[n] = S.fresh(info.params[n], n)
+        for g, srt in getattr(info.cls, "forall", {}).items():
+            # universally quantified ghost parameter: proved for an arbitrary (fresh) value
+            st.env[g] = S.fresh(srt, "forall_" + g)
         # old_ copies
         memo = {}
         olds = {f"old_{n}": _copy_obj(v, memo) for n, v in st.env.items()}
